@@ -11,6 +11,8 @@ structure St where
   slots : List (String × JVal) := []
   toks : List (UInt64 × Bytes) := []
   vals : List (Bytes × UInt64) := []
+  /-- output byte buffers: content and the (offset, length) of every JSON document appended -/
+  bufs : List (String × Bytes × List (Nat × Nat)) := []
 
 def compareDouble (a b : UInt64) : Bool :=
   let x := Float.ofBits a
@@ -185,12 +187,12 @@ def step (s : St) (t : List String) : St × List String :=
   | ["reparse", a, f, d] => match rget s a, parseFmt? f with
     | some av, some fmt =>
       if rroot a == d || d.contains '/' then bad else
-      match parseText s.env (printText s.env fmt av) with
+      match parseTextS s.env (printText s.env fmt av) with
       | some v => (s.set d v, ["P reparse OK"])
       | none => (s.del d, ["P reparse NULL"])
     | _, _ => bad
   | ["parse", d, h] => match (if d.contains '/' then none else parseHex? h) with
-    | some bs => match parseText s.env bs with
+    | some bs => match parseTextS s.env bs with
       | some v => (s.set d v, ["P parse OK"])
       | none => (s.del d, ["P parse NULL"])
     | none => bad
@@ -203,6 +205,32 @@ def step (s : St) (t : List String) : St × List String :=
   | ["destroy", a] => match s.get? a with
     | some _ => (s.del a, [])
     | none => bad
+  | ["buf", b, _cap, h] => match parseHex? h with
+    | some pre => if b.contains '/' then bad else
+      ({ s with bufs := (b, pre, []) :: s.bufs.filter (·.1 != b) }, [])
+    | none => bad
+  | ["bufappend", b, h] => match s.bufs.find? (·.1 == b), parseHex? h with
+    | some (_, c, segs), some x => ({ s with bufs := (b, c ++ x, segs) :: s.bufs.filter (·.1 != b) }, [])
+    | _, _ => bad
+  | ["printinto", b, a, f] => match s.bufs.find? (·.1 == b), rget s a, parseFmt? f with
+    | some (_, c, segs), some av, some fmt =>
+      let t := printText s.env fmt av
+      ({ s with bufs := (b, c ++ t, segs ++ [(c.length, t.length)]) :: s.bufs.filter (·.1 != b) },
+       [s!"P appended {c.length} {c.length + t.length}"])
+    | _, _, _ => bad
+  | ["bufdump", b] => match s.bufs.find? (·.1 == b) with
+    | some (_, c, _) => (s, [s!"P buf {hexB c}"])
+    | none => bad
+  | ["parseseg", b, k, d] => match s.bufs.find? (·.1 == b), k.toNat? with
+    | some (_, c, segs), some k =>
+      if d.contains '/' then bad else
+      match segs[k]? with
+      | some (off, len) =>
+        match parseTextS s.env ((c.drop off).take len) with
+        | some v => (s.set d v, ["P parseseg OK"])
+        | none => (s.del d, ["P parseseg NULL"])
+      | none => bad
+    | _, _ => bad
   | ["end"] => ({}, ["P balance 0"])
   | _ => bad
 
